@@ -182,6 +182,36 @@ def duplicate_scan(F):
     loops = [nd for nd in fn.nodes if nd["k"] == "ForStmt"]
     inst = AF + "VerifySortedContainerHasNoDuplicateNames#adjacent"
     req = "every adjacent pair names[i-1], names[i] for i = 1 .. size()-1 is compared with IsEqual and a match is refused"
+    if not loops:
+        # algorithm form: it = std::adjacent_find(names.begin(), names.end(), (a, b) -> IsEqual(a, b)); if (it != names.end()) throw
+        for nd in fn.nodes:
+            if nd["k"] in CALLS and (nd.get("fq") or "") == "std::adjacent_find" and len(nd.get("args", [])) == 3:
+                a = [fn.term(x) for x in nd["args"]]
+                rng = a[0][0] == "call" and a[0][1].endswith("begin") and a[0][2] == nm and a[1][0] == "call" and a[1][1].endswith("end") and a[1][2] == nm
+                lam = F.functions.get(a[2][1]) if a[2][0] == "lambda" else None
+                pred_ok = False
+                shown = "?"
+                if lam is not None and len(lam.params) == 2:
+                    rs = [x for x in lam.nodes if x["k"] == "ReturnStmt" and "value" in x]
+                    if len(rs) == 1:
+                        rt = lam.term(rs[0]["value"])
+                        shown = fmt_term(rt)
+                        ps = {("var", lam.params[0]["n"], lam.params[0]["d"]), ("var", lam.params[1]["n"], lam.params[1]["d"])}
+                        pred_ok = rt[0] == "call" and rt[1].endswith("StringUtility::IsEqual") and set(rt[3]) == ps
+                # refusal when the search finds a pair
+                from ..rules_sib import enclosing_if_cond
+                from .c05 import alias_defs, resolve
+                th = [n for n in fn.nodes if n["k"] == "CXXThrowExpr"]
+                guarded = False
+                if th:
+                    cid, in_then = enclosing_if_cond(fn, th[0]["id"])
+                    if cid is not None and in_then:
+                        ct = resolve(fn.term(cid), alias_defs(fn))
+                        guarded = ct[0] == "opcall" and ct[1] == "!=" and set(ct[2]) == {fn.term(nd["id"]), a[1]}
+                if rng and pred_ok and guarded:
+                    return [ok("R-SIB", inst, fn.loc(nd["id"]), fn.qn, req, "adjacent_find over the whole list with IsEqual; a found pair is refused")]
+                if rng and guarded and not pred_ok:
+                    return [bad("R-SIB", inst, fn.loc(nd["id"]), fn.qn, req, "adjacent names are compared with `%s`, not with StringUtility::IsEqual" % shown)]
     if len(loops) != 1:
         raise AnalysisBroken("duplicate scan shape not recognised")
     if len(calls) != 1:
